@@ -6,6 +6,7 @@ import (
 	"go/constant"
 	"go/token"
 	"go/types"
+	"regexp"
 	"sort"
 	"strings"
 
@@ -154,6 +155,7 @@ func runC20(c *core.Ctx) {
 	c.Rule("R1", "accepted alphabet ⊆ documented set and excludes every separator; length limit 150", 3)
 	c.Rule("R2", "ValidTenantID accepts ⇔ all bytes valid ∧ len ≤ max ∧ not '.'/'..'", 2)
 	c.Rule("R3", "resolver entry points return only validated, metadata-trimmed, normalised identifiers; every further identifier is compared", 7)
+	c.Rule("R7", "one resolution path: identifiers are validated only inside the three analysed resolvers, and every other entry point answers with a resolver's result unchanged", 5)
 	c.Rule("R5", "transport: same header/context keys on both sides, values forwarded unchanged", 6)
 	c.Rule("R6", "no default tenant: handlers reachable only after successful extraction; extraction fails when the identifier is absent", 8)
 	tp := c.Prog.Pkg("tenant")
@@ -213,6 +215,7 @@ func runC20(c *core.Ctx) {
 	c20Valid(c, tp)
 	// ---- R3
 	c20Resolvers(c, tp)
+	c20SinglePath(c, tp)
 	// ---- R5, R6
 	c20Transport(c, up, mp)
 }
@@ -814,4 +817,56 @@ func c20EachCompared(c *core.Ctx, tp *packages.Package, fn *an.Fn, name, varg st
 		where = " (loop in helper " + viaHelper + ")"
 	}
 	c.Check(len(bad) == 0 && len(exits) > 0, "R3", key, loop.Pos(), fmt.Sprintf("for every further identifier%s: it differs from the first ⇔ the loop is left through its error exit, whatever else the loop tests (no identifier is skipped): %d paths %v", where, paths, head(bad, 3)), paths)
+}
+
+// c20SinglePath (R7): R3 analyses TenantID, parseTenantIDs and ParseWithMetadata. That covers the package
+// only if nothing else resolves identifiers on its own: (a) ValidTenantID has no caller outside those three,
+// (b) the other entry points return, on success, the result of one of them (or of TenantIDs) unchanged,
+// applied to the unmodified identifier string / context they were given.
+func c20SinglePath(c *core.Ctx, tp *packages.Package) {
+	resolvers := map[string]bool{"TenantID": true, "parseTenantIDs": true, "ParseWithMetadata": true}
+	var others []string
+	n := 0
+	for _, f := range an.Funcs(tp) {
+		for _, call := range f.CallsTo(true, "tenant", "ValidTenantID") {
+			n++
+			root := call.In.Root()
+			if name := an.PinnedName(root.Obj); !resolvers[name] || root.Obj.Type().(*types.Signature).Recv() != nil {
+				others = append(others, fmt.Sprintf("%s (line %d)", an.FuncDisplay(root.Obj), c.Prog.Fset.Position(call.Expr.Pos()).Line))
+			}
+		}
+	}
+	c.Check(len(others) == 0 && n > 0, "R7", "census:ValidTenantID", tp.Syntax[0].Pos(), fmt.Sprintf("%d validation sites, all inside TenantID / parseTenantIDs / ParseWithMetadata; elsewhere: %v", n, others), n)
+	for _, e := range []struct{ fn, want string }{
+		{"ExtractTenantIDFromHTTPRequest", `^TenantID\(user\.ExtractOrgIDFromHTTPRequest\(p0\)#1\)#0$`},
+		{"TenantIDsFromOrgID", `^TenantIDs\(user\.InjectOrgID\([^,]*, p0\)\)(#0)?$`},
+		{"ExtractWithMetadata", `^ParseWithMetadata\(user\.ExtractOrgID\(p0\)#0\)(#0)?$`},
+		{"MultiResolver.TenantID", `^TenantID\(p0\)(#0)?$`},
+		{"MultiResolver.TenantIDs", `^TenantIDs\(p0\)(#0)?$`},
+	} {
+		f := an.FindFunc(tp, e.fn)
+		if f == nil {
+			c.Miss("R7", "func="+e.fn+":delegates", "not found")
+			continue
+		}
+		c.Analysed(f.String())
+		re := regexp.MustCompile(e.want)
+		var bad []string
+		succ := 0
+		for _, b := range f.Graph().Blocks {
+			r := an.ReturnOf(b)
+			if r == nil || len(r.Results) == 0 {
+				continue
+			}
+			last := f.Canon(r.Results[len(r.Results)-1])
+			if len(r.Results) > 1 && last != "nil" {
+				continue // an error return
+			}
+			succ++
+			if v := f.Canon(r.Results[0]); !re.MatchString(v) {
+				bad = append(bad, fmt.Sprintf("%s (line %d)", v, c.Prog.Fset.Position(r.Pos()).Line))
+			}
+		}
+		c.Check(succ > 0 && len(bad) == 0, "R7", "func="+e.fn+":delegates", f.Pos(), fmt.Sprintf("%d successful returns, each the analysed resolver's answer for the unmodified input; others: %v", succ, bad), succ)
+	}
 }
